@@ -261,12 +261,10 @@ pub fn gen_typed(r: &mut Rng) -> TV {
         23 => TV::OptStr(if r.chance(1, 3) { None } else { Some(gen_string(r)) }),
         24 => TV::OptVecStr(if r.chance(1, 3) { None } else { Some(gen_vec(r, 4, gen_string)) }),
         25 => {
-            let mut v = gen_vec(r, 6, |r| if r.chance(1, 3) { None } else { Some(gen_i32(r)) });
-            // Recon has no token for an absent value: a record whose only item is absent is written
-            // `{}` and is indistinguishable from the empty record. Not demanded.
-            if v == vec![None] {
-                v.push(None);
-            }
+            // (Recon has no token for an absent value: a record whose only item is absent is written `{}` and read
+            // back as the empty record. `Vec<Option<i32>>` is a built-in serialisable type, so that is demanded too:
+            // recorded as a finding, tag `lone_absent_item`.)
+            let v = gen_vec(r, 6, |r| if r.chance(1, 3) { None } else { Some(gen_i32(r)) });
             TV::VecOptI32(v)
         }
         26 => {
